@@ -67,7 +67,7 @@ func runCode(code *gojq.Code, v any, vars []any, maxOut int, budget time.Duratio
 }
 
 // evalCase replays one case.
-func evalCase(c map[string]any, maxOut int, budget time.Duration, noast bool) vlib.M {
+func evalCase(c map[string]any, maxOut int, budget time.Duration, noast bool, beat func()) vlib.M {
 	rec := vlib.M{"id": c["id"], "src": c["src"]}
 	src := c["src"].(string)
 	var q *gojq.Query
@@ -109,10 +109,8 @@ func evalCase(c map[string]any, maxOut int, budget time.Duration, noast bool) vl
 	}
 	runs := []any{}
 	for _, iv := range c["inputs"].([]any) {
-		var r runResult
-		if watchdog(budget+5*time.Second, func() { r = runCode(code, vlib.DecVal(iv, rep), nil, maxOut, budget) }) {
-			r = runResult{Out: []any{}, Panic: "HANG: the run neither returned nor reacted to its cancelled context"}
-		}
+		beat()
+		r := runCode(code, vlib.DecVal(iv, rep), nil, maxOut, budget)
 		run := vlib.M{"in": iv, "out": r.Out}
 		if r.Err != nil {
 			run["err"] = r.Err
@@ -139,22 +137,11 @@ func cmdEval(args []string) error {
 	noast := fs.Bool("noast", false, "do not include the AST")
 	par := fs.Int("j", 8, "parallel workers")
 	fs.Parse(args)
-	var cases []map[string]any
-	if err := readNDJSON(*in, func(c map[string]any) error { cases = append(cases, c); return nil }); err != nil {
-		return err
-	}
-	recs := make([]vlib.M, len(cases))
-	parallel(len(cases), *par, func(i int) { recs[i] = evalCase(cases[i], *maxOut, *budget, *noast) })
-	w, err := newNDWriter(*out)
-	if err != nil {
-		return err
-	}
-	for _, r := range recs {
-		if err := w.write(r); err != nil {
-			return err
-		}
-	}
-	return w.close()
+	return runBatch(*in, *out, *par, 6*time.Second+*budget,
+		func(c map[string]any, beat func()) map[string]any { return evalCase(c, *maxOut, *budget, *noast, beat) },
+		func(c map[string]any) map[string]any {
+			return vlib.M{"id": c["id"], "src": c["src"], "hang": true}
+		})
 }
 
 // cmdPrelude parses jq definition files with the real parser and writes the
